@@ -84,6 +84,25 @@ def check(case, ctx):
             s = G.Segment(B.pt(p), B.pt(q))
             if not near(step("Segment.length()", s.length), X.seg_len(p, q)):
                 raise Fail("Segment.length() wrong", {"p": p, "q": q}, facts)
+        # a Segment measured, given another end point through item assignment, measured again; and the edges
+        # handed out by segments()
+        es = X.edges_of(("G", pts))
+        for (p, q), (p2, q2) in zip(es, es[1:] + es[:1]):
+            s = G.Segment(B.pt(p), B.pt(q))
+            step("Segment.length()", s.length)
+            if tuple(q2) != tuple(p):
+                step("segment[1] = point", lambda: s.__setitem__(1, B.pt(q2)))
+                if not near(step("Segment.length()", s.length), X.seg_len(p, q2)):
+                    raise Fail("Segment.length() wrong after an end point was replaced by item assignment", {"p": p, "q": q2}, facts)
+            s.move(B.vec((1, -2, F(1, 2))))
+            if tuple(q2) != tuple(p) and not near(step("Segment.length()", s.length), X.seg_len(p, q2)):
+                raise Fail("Segment.length() changed by move", {"p": p, "q": q2}, facts)
+        o = step("ConvexPolygon", PC.build_polygon, pts, case[2])
+        tot = 0.0
+        for sg in o.segments():
+            tot += step("Segment.length()", sg.length)
+        if not near(tot, ref_len):
+            raise Fail("lengths of the edges handed out by segments() do not add up to the perimeter", {"got": tot, "expected": ref_len}, facts)
         return
     if k == "K":
         K = case[1]
